@@ -407,6 +407,9 @@ def _limit_hits(fm: FuncModel, cn, limits: list[str]) -> set[str]:
 
 
 # ------------------------------------------------------------------------------------------ E4
+_NOT_NONE: set[str] = set()       # names that the guard being examined also tests with `is not None`
+
+
 def _list_is_a_result(fm: FuncModel, x: ast.AST | None, at) -> list[str]:
     """The list whose emptiness is the evidence must be the result of a search on every path: a default (`[]`, None)
     that survives a failed search (an exception that was caught) would count as 'no attractor here'."""
@@ -418,6 +421,8 @@ def _list_is_a_result(fm: FuncModel, x: ast.AST | None, at) -> list[str]:
         v = a.value if isinstance(a, (ast.Assign, ast.AnnAssign)) else None
         if d.kind == "entry" or isinstance(v, ast.Call) or (isinstance(a, ast.Assign) and isinstance(a.targets[0], ast.Tuple)):
             continue
+        if v is not None and is_none(v) and x.id in _NOT_NONE:
+            continue        # `x is not None and len(x) == 0`: the None left by a failed search is excluded by the guard itself
         if v is not None and (is_empty_list(v) or is_none(v)):
             out.append(f"line {d.lineno}: `{x.id}` can still hold its default `{text(v)}` where its emptiness is tested (e.g. after "
                        f"a failed search whose exception was caught): a failure would count as 'no attractor'")
@@ -439,14 +444,24 @@ def guard_value_ok(fm: FuncModel, e: ast.AST, at, prog, depth=0) -> list[str]:
     if isinstance(e, ast.BoolOp) and isinstance(e.op, ast.And):
         out: list[str] = []
         evidence = 0
-        for v in e.values:
-            if isinstance(v, ast.Name) and v.id in fm.f.params():
-                continue  # configuration flag
-            p = guard_value_ok(fm, v, at, prog, depth + 1)
-            if p:
-                out += p
-            else:
-                evidence += 1
+        nn = {v.left.id for v in e.values if isinstance(v, ast.Compare) and len(v.ops) == 1 and isinstance(v.ops[0], ast.IsNot)
+              and isinstance(v.left, ast.Name) and is_none(v.comparators[0])}
+        added = nn - _NOT_NONE
+        _NOT_NONE.update(added)
+        try:
+            for v in e.values:
+                if isinstance(v, ast.Name) and v.id in fm.f.params():
+                    continue  # configuration flag
+                if isinstance(v, ast.Compare) and len(v.ops) == 1 and isinstance(v.ops[0], ast.IsNot) and isinstance(v.left, ast.Name) \
+                        and v.left.id in nn:
+                    continue  # "the search did not fail": says nothing by itself, and excludes the None of a failed search
+                p = guard_value_ok(fm, v, at, prog, depth + 1)
+                if p:
+                    out += p
+                else:
+                    evidence += 1
+        finally:
+            _NOT_NONE.difference_update(added)
         if not out and not evidence:
             out.append("no conjunct is an emptiness test")
         return out
